@@ -8,6 +8,7 @@ import (
 	. "github.com/flant/shell-operator/pkg/hook/task_metadata"
 	"github.com/flant/shell-operator/pkg/task"
 	"github.com/flant/shell-operator/pkg/task/queue"
+	"github.com/flant/shell-operator/pkg/utils/verifhook"
 )
 
 type CombineResult struct {
@@ -75,6 +76,7 @@ func (op *ShellOperator) combineBindingContextForHook(tqs *queue.TaskQueueSet, q
 		}
 	})
 
+	verifhook.Yield("combine.afterScan")
 	// no tasks found to combine
 	if len(otherTasks) == 0 {
 		return nil
